@@ -150,22 +150,22 @@ def _atmos_job(k):
         if not all(np.isfinite([T, P, rho, a, mu, v, re])) or min(T, P, rho, a, mu) <= 0:
             bad.append("atmos:nonfinite_or_nonpositive")
             break
-        if abs(v - M * a) > 1e-12 * a:
+        if not (abs(v - M * a) <= 1e-12 * a):
             bad.append("atmos:v_is_not_M_a")
-        if abs(re - rho * v / mu) > 1e-7 * re:
+        if not (abs(re - rho * v / mu) <= 1e-7 * re):
             bad.append("atmos:reynolds")
         # table data carry ~4 significant digits: mutual consistency to 0.2 %
-        if abs(P / (rho * 287.05 * T) - 1.0) > 2e-3:
+        if not (abs(P / (rho * 287.05 * T) - 1.0) <= 2e-3):
             bad.append("atmos:ideal_gas")
-        if abs(a / np.sqrt(1.4 * 287.05 * T) - 1.0) > 2e-3:
+        if not (abs(a / np.sqrt(1.4 * 287.05 * T) - 1.0) <= 2e-3):
             bad.append("atmos:speed_of_sound")
-        if abs(mu / (1.458e-6 * T**1.5 / (T + 110.4)) - 1.0) > 2e-2:  # Sutherland's law; the table has three digits
+        if not (abs(mu / (1.458e-6 * T**1.5 / (T + 110.4)) - 1.0) <= 2e-2):  # Sutherland's law; the table has three digits
             bad.append("atmos:viscosity")
     if k == 0 and not bad:
         V = np.array(vals)
         d1 = np.abs(np.diff(V, axis=0)) / np.abs(V[:-1])
         # continuity: no step of 50 ft changes any quantity by more than 1 %
-        if float(np.max(d1)) > 1e-2:
+        if not (float(np.max(d1)) <= 1e-2):
             bad.append("atmos:discontinuity")
     return {"k": k, "bad": sorted(set(bad))}
 
